@@ -772,6 +772,15 @@ def ownership_check(ck, prop_driver="C01own", n_random=None, backends=("memory",
     ]
 
 
+def prepare(ck):
+    """for C01's harness: build the heap model's driver in its own directory (build/C01own), then call
+    ownership_check(ck, "C01own", have_driver=ok); Props/C01own.v is built by ck.prove(extra_targets=["Props/C01own.v"])"""
+    ok = common.build_driver("C01own", ck.log, "ExC12")[0]
+    if not ok:
+        ck.broken.append("heap model no longer extracts/compiles (ExC12)")
+    return ok
+
+
 RULE = ("deterministic boundary histories (every operation of the storage API, both insert paths, every error class, "
         "nested data, objects shared between caller values) then seeded random histories of 4-27 steps over 1-3 buckets "
         "interleaving storage calls with caller mutations (scalar change, reference removed, reference to another caller "
@@ -783,9 +792,7 @@ def main(argv=None):
     common.setup_impl_env()
     ck.run_witnesses(["w01"])
     ck.prove(props_file="Props/C01own.v")
-    ok = common.build_driver("C01own", ck.log, "ExC12")[0]
-    if not ok:
-        ck.broken.append("model no longer extracts/compiles (ExC12)")
+    ok = prepare(ck)
     ownership_check(ck, "C01own", have_driver=ok)
     return ck.finish(RULE)
 
